@@ -174,8 +174,8 @@ def both(arg):
 
 def run(tier, seed, work):
     res = vp.Result("C20", tier, seed, "exploration")
-    nh = 600 if tier == "quick" else 4000
-    np_ = 600 if tier == "quick" else 4000
+    nh = 600 if tier == "quick" else 12000
+    np_ = 600 if tier == "quick" else 12000
     args = [("c01", i, seed, work) for i in range(nh // 2)] + [("c02", i, seed, work) for i in range(nh // 2)] + [("phase", i, seed, work) for i in range(np_)]
     for d in vp.pimap(both, args, chunksize=4):
         res.merge(d)
